@@ -136,3 +136,21 @@ Theorem pml_root_never_exited : forall pv c iqcap eqcap fuel s,
   mem 0 (p_cfg s) = true -> mem 0 (p_cfg (fst (pml_loop pv c iqcap eqcap fuel s))) = true.
 Proof. exact pml_root_never_exited_lemma. Qed.
 Print Assumptions pml_root_never_exited.
+
+(* ---- declared widths of the emitted model ----------------------------------------------------------- *)
+
+(* U: n = BIT_WIDTH(number) bits hold the values below `number`; hence the widths the template declares for the
+   event variable, the state/transition indices and the loop counters are sufficient for every document, also
+   when a count is a power of two *)
+Theorem pml_declared_widths_enough : forall n v, (v < n)%N -> (v < 2 ^ bit_width n)%N.
+Proof. exact bit_width_holds. Qed.
+Print Assumptions pml_declared_widths_enough.
+
+(* declForRange(nativeOnly = false) writes BIT_WIDTH(maxValue): one bit short when maxValue is a power of two
+   (latent: its only call site passes the range (0,0)); BIT_WIDTH(maxValue + 1) is right *)
+Theorem pml_declforrange_width_refuted : exists maxValue, ~ (maxValue < 2 ^ bit_width maxValue)%N.
+Proof. exact declforrange_width_refuted. Qed.
+Print Assumptions pml_declforrange_width_refuted.
+Theorem pml_declforrange_width_repaired : forall maxValue v, (v <= maxValue)%N -> (v < 2 ^ bit_width (maxValue + 1))%N.
+Proof. exact declforrange_width_repaired. Qed.
+Print Assumptions pml_declforrange_width_repaired.
